@@ -357,6 +357,7 @@ def class_corr_cases(rng, genfile, pfx, n, spec=None, rt_sampler=None, tol=1e-9)
 
 def write_case_files(name, imports, goals, per_file=60):
     """writes coq/cases/<name>_<k>.v; returns list of relative .v paths"""
+    name = re.sub(r'\W', '_', name)
     os.makedirs(os.path.join(COQ, 'cases'), exist_ok=True)
     for old in glob.glob(os.path.join(COQ, 'cases', name + '_*.v*')) + glob.glob(os.path.join(COQ, 'cases', '.' + name + '_*.aux')):
         os.remove(old)
